@@ -20,6 +20,7 @@ ASSUMPTIONS = ["vf/ref/bip39_ref.py (bit-string formulation, hand-rolled PBKDF2)
                "columns; the English word list file itself is shared input"]
 OBLIGATIONS = {
     "concurrent_calls": "interleavings of two concurrent calls (single-case checks in two threads, cold and after warm-up calls)",
+    "long_history": "operations executed in one long history (>= 1000 distinct operations, forward / forward / reverse)",
     "history_sequences": "operation sequences (non-initial process states) explored",
     "invalid_length_refused": "an entropy length other than 16/20/24/28/32 offered", "last_word_all_2048": "all 2048 last words tried on a phrase",
     "accepted_alternative_last_word": "a different last word that is also valid (other entropy bits) was offered",
@@ -222,6 +223,8 @@ def jobs(tier, seed):
         js.append({"name": f"seed-nfkd/{sh}", "part": "seednfkd", "shard": [sh, 8], "weight": 6})
     from vf.runner import seq_jobs
     js += seq_jobs(3, weight=3)
+    from vf.runner import long_jobs
+    js += long_jobs()
     from vf.runner import concur_jobs
     js += concur_jobs(len(CONCUR_SCEN) - (1 if tier == "quick" else 0))
     return js
@@ -233,6 +236,9 @@ def run_job(job):
         ops = seq_ops(dict(job, shard=[0, 1]))
         scens = [{"threads": [ops[i] for i in sc[0]], "warm": [ops[i] for i in sc[1]], "post": [ops[i] for i in (sc[2] if len(sc) > 2 else ())]} for sc in CONCUR_SCEN]
         return run_concur_job(job, scens, run_case, PROPERTY, CONCUR_FILES)
+    if job["part"] == "longhist":
+        from vf.runner import run_long_job, default_long_ops
+        return run_long_job(job, default_long_ops(seq_ops, job), run_case)
     if job["part"] == "seq":
         from vf.runner import run_seq_job
         return run_seq_job(job, seq_ops(job), run_case, depth=3 if job["tier"] == "quick" else 4)
